@@ -1,0 +1,59 @@
+//go:build verif
+
+package common
+
+// Contracts for govc (see /verif/DESIGN.md). Comment-only: no declarations.
+
+// ---------------------------------------------------------------- time.go (C19)
+
+//@ func (spec *Spec) TimeToSlot(t, genesisTime) r
+//@   property C19
+//@   requires spec != nil && spec.SECONDS_PER_SLOT != 0
+//@   ensures before: t < genesisTime ==> r == 0
+//@   ensures after: t >= genesisTime ==> r == (t - genesisTime) / spec.SECONDS_PER_SLOT
+
+//@ func (spec *Spec) TimeAtSlot(slot, genesisTime) (t, err)
+//@   property C19
+//@   requires spec != nil && spec.SECONDS_PER_SLOT != 0
+//@   ensures exact: err == nil ==> t == slot*spec.SECONDS_PER_SLOT + genesisTime
+//@   ensures representable: slot*spec.SECONDS_PER_SLOT + genesisTime < 18446744073709551616 ==> err == nil
+//@   ensures nowrap: slot*spec.SECONDS_PER_SLOT + genesisTime >= 18446744073709551616 ==> err != nil
+
+//@ func (spec *Spec) SlotToEpoch(s) r
+//@   property C19
+//@   requires spec != nil && spec.SLOTS_PER_EPOCH != 0
+//@   ensures r == s / spec.SLOTS_PER_EPOCH
+
+//@ func (spec *Spec) EpochStartSlot(e) (s, err)
+//@   property C19
+//@   requires spec != nil && spec.SLOTS_PER_EPOCH != 0
+//@   ensures exact: err == nil ==> s == e*spec.SLOTS_PER_EPOCH
+//@   ensures representable: e*spec.SLOTS_PER_EPOCH < 18446744073709551616 ==> err == nil
+//@   ensures nowrap: e*spec.SLOTS_PER_EPOCH >= 18446744073709551616 ==> err != nil
+
+//@ func (spec *Spec) ComputeActivationExitEpoch(e) r
+//@   property C19
+//@   requires spec != nil
+//@   ensures e + 1 + spec.MAX_SEED_LOOKAHEAD < 18446744073709551616 ==> r == e + 1 + spec.MAX_SEED_LOOKAHEAD
+
+//@ func (e Epoch) Previous() r
+//@   property C19
+//@   ensures e == 0 ==> r == 0
+//@   ensures e > 0 ==> r == e - 1
+
+//@ func (s Slot) Previous() r
+//@   property C19
+//@   ensures s == 0 ==> r == 0
+//@   ensures s > 0 ==> r == s - 1
+
+//@ func (spec *Spec) GetChurnLimit(activeValidatorCount) r
+//@   property C19
+//@   requires spec != nil && spec.CHURN_LIMIT_QUOTIENT != 0
+//@   ensures r == max(spec.MIN_PER_EPOCH_CHURN_LIMIT, activeValidatorCount / spec.CHURN_LIMIT_QUOTIENT)
+
+// ---------------------------------------------------------------- shuffling.go (C19)
+
+//@ func CommitteeCount(spec, activeValidators) r
+//@   property C19
+//@   requires spec != nil && spec.SLOTS_PER_EPOCH != 0 && spec.TARGET_COMMITTEE_SIZE != 0
+//@   ensures r == max(1, min(spec.MAX_COMMITTEES_PER_SLOT, activeValidators / spec.SLOTS_PER_EPOCH / spec.TARGET_COMMITTEE_SIZE))
